@@ -80,14 +80,44 @@ class Ctx:
         self.nsolve += 1
         t = time.time()
 
+        def strengthen(assertions):
+            """z3's preprocessing does not propagate Not(x == c) for a 1-bit x (what a taken `if bit_at(..)` commits):
+            add the equivalent positive equality"""
+            out = []
+            for a in assertions:
+                if z3.is_not(a):
+                    e = a.arg(0)
+                    if z3.is_eq(e):
+                        l, r_ = e.arg(0), e.arg(1)
+                        if z3.is_bv(l) and l.size() == 1:
+                            if z3.is_bv_value(r_):
+                                out.append(l == z3.BitVecVal(1 - r_.as_long(), 1))
+                            elif z3.is_bv_value(l):
+                                out.append(r_ == z3.BitVecVal(1 - l.as_long(), 1))
+            return out
+
         def fresh(timeout):
-            s = z3.SolverFor('QF_ABV')
-            s.set('timeout', timeout)
-            s.add(self.solver.assertions())
-            for x in extra:
-                s.add(x)
-            r_ = s.check()
-            return r_, (s.model() if r_ == z3.sat else None)
+            """restart ladder: the run-time distribution of these queries is heavy-tailed in the random seed"""
+            asserts = list(self.solver.assertions())
+            extra_eq = strengthen(asserts)
+            ladder = [(min(timeout, 2000), 0), (min(timeout, 6000), 1), (min(timeout, 15000), 2), (timeout, 3)]
+            done = 0
+            r_ = z3.unknown
+            for tmo, seed in ladder:
+                if tmo <= done:
+                    continue
+                s = z3.SolverFor('QF_ABV')
+                s.set('timeout', tmo)
+                s.set('random_seed', seed)
+                s.add(asserts)
+                s.add(extra_eq)
+                for x in extra:
+                    s.add(x)
+                r_ = s.check()
+                if r_ != z3.unknown:
+                    return r_, (s.model() if r_ == z3.sat else None)
+                done = tmo
+            return r_, None
 
         def incr():
             s2 = self.solver
